@@ -7,8 +7,8 @@ From Toasty Require Import Generated.CliCascadeSrc.
 Import ListNotations.
 Local Open Scope string_scope.
 
-Lemma src_cascade_impl_eq (is_none : sval unit -> bool) (eq_lit : sval unit -> string -> bool) :
-  run_tree is_none eq_lit src_cli_cascade_impl = cascade_impl_model is_none.
+Lemma src_cascade_impl_eq (is_none : sval unit -> bool) (eq_lit : sval unit -> string -> bool) (is_true : sval unit -> bool) :
+  run_tree is_none eq_lit is_true src_cli_cascade_impl = cascade_impl_model is_none.
 Proof. reflexivity. Qed.
 
 (* --format, --start and --parallelism reach cascade_images: whenever the command does not die it
